@@ -12,8 +12,8 @@ driver runs them with `α := String` (the 64-bit pattern in hex) and the theorem
 one constructor per *kind of statement that can change a table*.  `Step op a b` is the contract of
 one such statement: what `b` may differ from `a` in (the value written is arbitrary).  For tskit's
 own methods (`sort`, `build_index`, `compute_mutation_parents`, `compute_mutation_times`) the
-contract is tskit's documented behaviour and is *assumed* (trusted base, checked per input by the
-harness); for column assignments it is the meaning of the assignment.
+contract is tskit's documented behaviour and is *assumed* (trusted base; `sort` and
+`compute_mutation_times` are checked on every call the harness observes); for column assignments it is the meaning of the assignment.
 -/
 
 namespace Tsdate.Tables
@@ -183,6 +183,15 @@ structure SortRel (a b : TableCollection α) : Prop where
   migs : b.migrations.Perm a.migrations
   rest : { b with edges := a.edges, mutations := a.mutations, migrations := a.migrations } = a
 
+/-- tskit `compute_mutation_times()`: assigns the `time` column and — as its documentation says —
+"the mutation table will be sorted if the new times mean that the original order is no longer
+valid": rows may again be permuted inside their site (measured: it happens), with the `parent`
+column renumbered.  Everything except `time`/`parent` and the row order is kept. -/
+structure TimesRel (a b : TableCollection α) : Prop where
+  muts : (b.mutations.map MutRow.key2).Perm (a.mutations.map MutRow.key2)
+  mutSites : b.mutations.map (·.site) = a.mutations.map (·.site)
+  rest : { b with mutations := a.mutations } = a
+
 /-- `b`'s mutation table is `a`'s with one column replaced. -/
 def MutColSet {β : Type} (upd : MutRow α → β → MutRow α) (a b : TableCollection α) : Prop :=
   ∃ vals : List β, vals.length = a.mutations.length ∧ b = { a with mutations := setCol upd a.mutations vals }
@@ -208,7 +217,7 @@ def Step : WOp → TableCollection α → TableCollection α → Prop
   | .call "sort", a, b => SortRel a b
   | .call "build_index", a, b => b = a
   | .call "compute_mutation_parents", a, b => MutColSet MutRow.setParent a b
-  | .call "compute_mutation_times", a, b => MutColSet MutRow.setTime a b
+  | .call "compute_mutation_times", a, b => TimesRel a b
   | .addRow .provenances, a, b => ∃ r, b = { a with provenances := a.provenances ++ [r] }
   | _, _, _ => True
 
